@@ -70,8 +70,13 @@ func idsText(class string, b *Binder, v any) string {
 	var xs []string
 	for _, e := range l {
 		id, _ := wamp.AsID(e)
-		if class == "R" && b.internalReg[id] {
-			continue // the realm's own wamp.* registrations, learnt at start
+		if class == "R" {
+			if b.internalReg[id] {
+				continue // the realm's own wamp.* registrations, learnt at start
+			}
+			if _, bound := b.reg[id]; !bound && (b.minClientReg == 0 || id < b.minClientReg) {
+				continue // registered before any client registration: the realm's own
+			}
 		}
 		xs = append(xs, idText(class, b, id))
 	}
